@@ -863,3 +863,24 @@ Proof.
 Qed.
 
 End RacyRead.
+
+(* ------------------------------------------------------------------ the RECURSIVE_CHECK variant *)
+
+Lemma lk_rc_same : forall t l,
+  (lk_held l = false -> lk_incb l = 0) -> lk_lock_func_rc t l = lk_lock_func t l.
+Proof.
+  intros t l H. unfold lk_lock_func_rc, lk_lock_func.
+  destruct (lk_held l) eqn:HL.
+  - destruct (lk_pid l =? t); destruct (negb (lk_incb l =? 0)); reflexivity.
+  - rewrite (H eq_refl). reflexivity.
+Qed.
+
+(* on every reachable state both variants of coap_lock_lock_func take the same decision for
+   every caller: all theorems hold for a build with COAP_THREAD_RECURSIVE_CHECK as well *)
+Theorem lk_rc_same_reachable : forall progs,
+  Forall (fun p => lk_wfprog p = true) progs -> forall s t,
+  lk_reach (lk_init progs) s -> lk_lock_func_rc t (lk_l s) = lk_lock_func t (lk_l s).
+Proof.
+  intros progs W s t R. apply lk_rc_same. intros H.
+  rewrite (lk_free_is_initial progs W s R H). reflexivity.
+Qed.
